@@ -1077,6 +1077,51 @@ def _sf_forall_int(ex, ctx, st, e):
     return _quant(ex, ctx, st, e, True)
 
 
+def _sf_forall_key(ex, ctx, st, e):
+    """forall_key(d, lambda k: P(k)): P holds for every key of the dict / set d -- stated pointwise over values
+    (forall x. x in d => P(x)), without going through the key list, which keeps the obligations inside array theory."""
+    from .loops import mentions
+    from . import containers
+    d = ex.eval(ctx, st, e.args[0])
+    lam = e.args[1]
+    if not isinstance(lam, ast.Lambda):
+        raise CheckerError("forall_key needs a lambda")
+    d = containers.as_ref(ex, d)
+    if containers.kind_of(ex, ctx, st, d) not in ("dict", "set"):
+        raise Unsupported("forall_key over something else than a dict / set")
+    kx = ctx.fresh("fk", V)
+    has = z3.Select(z3.Select(ex.heap_get(st, "$has"), d.t), kx)
+    # keys are hashable, never containers; bool keys are stored as the ints they equal (container-wf)
+    ctags = [c.tag for c in ex.reg.classes.values() if c.container]
+    from .schema import cls_of
+    wf = z3.And(z3.Not(V.is_BOOL(kx)), z3.Not(z3.And(V.is_REF(kx), z3.Or(*[cls_of(V.r(kx)) == t for t in ctags]))))
+    rng = z3.And(has, wf)
+    fr = st.frames[-1]
+    name = lam.args.args[0].arg
+    had = name in fr.vars
+    prev = fr.vars.get(name)
+    fr.vars[name] = mk_any(kx)
+    n0 = len(ctx.pc)
+    try:
+        body = eval_guarded(ex, ctx, st, lam.body, rng)
+    finally:
+        if had:
+            fr.vars[name] = prev
+        else:
+            fr.vars.pop(name, None)
+    kn = {kx.decl().name()}
+    keep_pc, keep_k = ctx.pc[:n0], ctx.kinds[:n0]
+    for c, k in zip(ctx.pc[n0:], ctx.kinds[n0:]):
+        if mentions(c, kn):
+            c = z3.ForAll([kx], c)
+        keep_pc.append(c)
+        keep_k.append(k)
+    ctx.pc[:] = keep_pc
+    ctx.kinds[:] = keep_k
+    ctx._solver = None
+    return mk_bool(z3.ForAll([kx], z3.Implies(rng, body)))
+
+
 def _sf_exists_int(ex, ctx, st, e):
     return _quant(ex, ctx, st, e, False)
 
@@ -1207,6 +1252,7 @@ SPEC_FORMS = {
     "implies": _sf_implies,
     "ite": _sf_ite,
     "forall_int": _sf_forall_int,
+    "forall_key": _sf_forall_key,
     "exists_int": _sf_exists_int,
     "is_tuple": _sf_is_tuple,
     "is_none": _sf_kind_test("none"),
